@@ -56,6 +56,33 @@ func Run() {
 	println(%TAG%, len(s.fn()(3)), len(s.mp()), s.Arr([2]int32{1, 2})[1])
 }
 `, want: []string{"4 5", "1 0 2"}},
+	// one initialiser declares SEVERAL package variables (comma-ok forms without a call or receive, tuple from
+	// a call, a receive): live code reads only one of them - the first, the second, or the blank-paired one
+	{name: "multi_variable_initialiser_partially_used", src: `
+type shape interface{ area() int32 }
+type sq struct{ s int32 }
+
+func (q sq) area() int32 { return q.s * q.s }
+
+var table = map[string]int32{"a": 1, "b": 2}
+var boxed interface{} = sq{3}
+var ch = func() chan int32 { c := make(chan int32, 1); c <- 6; return c }()
+
+var v1, ok1 = table["a"]      // only ok1 is read
+var v2, ok2 = table["zz"]     // only v2 is read
+var s3, isShape = boxed.(shape) // only isShape is read
+var s4, notInt = boxed.(int32)  // only s4 is read
+var r5, open5 = <-ch           // only open5 is read
+var a6, b6 = pair()            // only b6 is read
+var _, ok7 = table["b"]
+var Exp8, exp9 = table["b"]     // exported first, unexported second: only exp9 is read
+
+func pair() (int32, int32) { return 10, 11 }
+
+func Run() {
+	println(%TAG%, ok1, v2, isShape, s4, open5, b6, ok7, exp9)
+}
+`, want: []string{"true 0 true 0 true 11 true true"}},
 	// a method reached only through a method value of an embedded field, and through an interface held in a struct
 	{name: "method_value_of_promoted_method", src: `
 type inner struct{ n int32 }
